@@ -270,6 +270,29 @@ impl Monitor for M {
                 }
             }
         }
+        // one filter object for a long trace: the generated filter decides a maximum-size copy of the
+        // situation 70 000 times in a row (> 4 GiB of payload through one object); every verdict is the first one
+        if !light && ctx.index % 40_000 == 11 {
+            ctx.eval();
+            let n = 70_000u32;
+            let want_drop = exp_drop;
+            let res = guarded(|| {
+                let mut wrong = 0u32;
+                for _ in 0..n {
+                    match dlt_message(&bytes, Some(&p), wsh) {
+                        Ok((_, ParsedMessage::FilteredOut(_))) if want_drop => {}
+                        Ok((_, ParsedMessage::Item(_))) if !want_drop => {}
+                        _ => wrong += 1,
+                    }
+                }
+                wrong
+            });
+            match res {
+                Err(pn) => ctx.panic_violation("filtered_parse.no_panic", &pn, || detail(format!("one filter object used {} times", n))),
+                Ok(0) => ctx.obs("ok.long_lived_filter_object"),
+                Ok(w) => ctx.violation("drops_exactly", "long_lived_filter_object", || detail(format!("{} of {} repeated calls with one filter object gave another verdict", w, n))),
+            }
+        }
         ctx.sample(|| detail("sample".into()));
     }
 
